@@ -12,6 +12,7 @@ operation sequences; nothing here is checked on literals except the `example`s, 
 satisfiable and exhibit the excluded points.
 -/
 import PyramidModel.Lemmas.AuthTktExamples
+import PyramidModel.Lemmas.AuthTktAddr
 
 namespace Pyr.AuthTkt
 
@@ -342,6 +343,70 @@ theorem identify_nothing_or_issued (env : Env) (hH : env.H.WellSized) (cfg : Cfg
       · exact ⟨none, st, h, Or.inl rfl⟩
       · exact ⟨_, _, h, Or.inr ⟨_, i, rfl, him, rfl, Or.inl rfl⟩⟩
       · exact ⟨_, _, h, Or.inr ⟨_, i, rfl, him, rfl, Or.inr rfl⟩⟩
+
+/-! ## 5b. The ticket is bound to the address it was issued for (`include_ip`) -/
+
+/-- **address_injective_v6** (full).  On the IPv6 branch the signed prefix is the address TEXT followed by the decimal
+timestamp: two prefixes (timestamps of equal decimal width) are equal only for the same address string and timestamp —
+`::1`, `0:0:0:0:0:0:0:1`, `[::1]`, `::ffff:1.2.3.4`, upper/lower-case spellings are all DIFFERENT addresses to the digest. -/
+theorem address_injective_v6 (U : Uni) (ip ip' : Text) (ts ts' : Int) (b : Bytes)
+    (h6 : ip.contains ':' = true) (h6' : ip'.contains ':' = true)
+    (hw : (decStr ts).length = (decStr ts').length)
+    (h : ipTimestamp U ip ts = .ok b) (h' : ipTimestamp U ip' ts' = .ok b) : ip = ip' ∧ ts = ts' :=
+  ipTimestamp_v6_injective U ip ip' ts ts' b h6 h6' hw h h'
+
+/-- **address_injective_v4** (full).  On the dotted branch the signed prefix is one byte per part (`chr(int(part))`) and
+four timestamp bytes: two prefixes with the same number of parts are equal only for the same octet VALUES and the same
+timestamp modulo 2³².  (The spelling of an octet — `1` / `001` / `int()`'s spaces and underscores — is not signed.) -/
+theorem address_injective_v4 (U : Uni) (ip ip' : Text) (ts ts' : Int) (b : Bytes)
+    (h4 : ip.contains ':' = false) (h4' : ip'.contains ':' = false)
+    (hn : (splitAll '.' ip).length = (splitAll '.' ip').length)
+    (h : ipTimestamp U ip ts = .ok b) (h' : ipTimestamp U ip' ts' = .ok b) :
+    (splitAll '.' ip).mapM (ipOctet U) = (splitAll '.' ip').mapM (ipOctet U) ∧ ts % 4294967296 = ts' % 4294967296 :=
+  ipTimestamp_v4_injective U ip ip' ts ts' b h4 h4' hn h h'
+
+/-- **other_address_rejected** (full, under the named MAC hypothesis).  A ticket issued for `(u, tl)` at `clock` to
+the client address `ipA`, presented — as ANY cookie string carrying its MAC — from the address `ipB`: if it is accepted
+then the signed address/timestamp prefix is the one that was issued (and the fields are the issued ones).  With
+`address_injective_v6` / `_v4` this is: it is accepted only from the same IPv6 address string (same timestamp), resp.
+from an IPv4 address with the same octet values — never from another address. -/
+theorem other_address_rejected (env : Env) (secret ipA ipB c : Text) (p : Parsed) (u : UserId) (tl : List Text)
+    (clock : Nat) (bA : Bytes)
+    (hvalid : ∀ t ∈ tl, validToken t = true)
+    (_hA : ipTimestamp env.U ipA clock = .ok bA)
+    (hacc : parseTicket env secret c ipB = .ok (some p))
+    (hmac : ∀ d q, parseFields env.U (env.H.size * 2) c = some (d, q) →
+      MacSecure env.H (utf8Enc secret) [digestInput bA (utf8Enc secret) (encodeUserid u).2 (List.intercalate [','] tl)
+        (userIdTypePrefix ++ (encodeUserid u).1)] d)
+    (hw : ∀ bB, ipTimestamp env.U ipB p.ts = .ok bB → bA.length = bB.length) :
+    ipTimestamp env.U ipB p.ts = .ok bA ∧ p.userid = (encodeUserid u).2 ∧ p.tokens = List.intercalate [','] tl ∧
+      p.userData = userIdTypePrefix ++ (encodeUserid u).1 := by
+  obtain ⟨d, hpf, hcd⟩ := (parseTicket_accept_iff _ _ _ _ _).mp hacc
+  obtain ⟨bB, hB, hdm⟩ := calcDigest_ok_inv hcd
+  have hx := hmac d p hpf _ hdm.symm
+  simp only [List.mem_singleton] at hx
+  obtain ⟨n1, n2, n3⟩ := issued_fields_nulfree u tl hvalid
+  obtain ⟨e0, e1, e2, e3⟩ := digestInput_injective bA bB (utf8Enc secret) _ _ _ _ _ _ (hw bB hB) n1 n2 n3 hx.symm
+  exact ⟨by rw [hB, e0], e1.symm, e2.symm, e3.symm⟩
+
+/-- distinct IPv6 address strings never verify each other's tickets (timestamps of equal decimal width) -/
+theorem other_ipv6_address_rejected (env : Env) (secret ipA ipB c : Text) (p : Parsed) (u : UserId) (tl : List Text)
+    (clock : Nat) (bA : Bytes)
+    (hvalid : ∀ t ∈ tl, validToken t = true)
+    (h6A : ipA.contains ':' = true) (h6B : ipB.contains ':' = true)
+    (hA : ipTimestamp env.U ipA clock = .ok bA)
+    (hacc : parseTicket env secret c ipB = .ok (some p))
+    (hmac : ∀ d q, parseFields env.U (env.H.size * 2) c = some (d, q) →
+      MacSecure env.H (utf8Enc secret) [digestInput bA (utf8Enc secret) (encodeUserid u).2 (List.intercalate [','] tl)
+        (userIdTypePrefix ++ (encodeUserid u).1)] d)
+    (hdig : (decStr (clock : Int)).length = (decStr p.ts).length)
+    (hlen : ipA.length = ipB.length) : ipA = ipB ∧ p.ts = (clock : Int) := by
+  have hw : ∀ bB, ipTimestamp env.U ipB p.ts = .ok bB → bA.length = bB.length := by
+    intro bB hB
+    rw [ipTimestamp_v6_length _ _ _ _ h6A hA, ipTimestamp_v6_length _ _ _ _ h6B hB, hdig, hlen]
+  obtain ⟨hB, _⟩ := other_address_rejected env secret ipA ipB c p u tl clock bA hvalid hA hacc hmac hw
+  obtain ⟨e1, e2⟩ := ipTimestamp_v6_injective env.U ipA ipB clock p.ts bA h6A h6B hdig hA hB
+  exact ⟨e1, e2.symm⟩
 
 /-! ## 6. Reissue: once, strictly after `reissue_time`, revoked by forget / remember -/
 
